@@ -90,16 +90,21 @@ theorem C18_rate (cfg : RateLimitConfig) (U : Nat) (hwf : cfg.Burst * U ≤ cfg.
   refine ⟨rlRun_length cfg U es _, fun ip _ => ?_⟩
   exact stretches cfg U hwf ip es 0 _ hs (fun x hx => by cases hx)
 
-/-- **Handshake responses.** Every response of `HandleHandshake` in the model is the reference's:
-`blk` exactly when the ledger says blacklisted, else `ban` exactly when the ledger says locked, and
-in both cases nothing is recorded and no token is taken — for every time line of attempts of all
-kinds, list changes and asynchronous steps.
+/-- **Handshake.** Every response of `HandleHandshake` in the model is the reference's: `blk` exactly
+when the ledger says blacklisted, else `ban` exactly when the ledger says locked (in both cases
+nothing is recorded and no token is taken, `C18_refused_is_inert`), and the anonymous registrations
+that get past the gates obey rate and burst in every stretch — for every time line of attempts of
+all kinds, list changes, clean-ups and asynchronous steps. -/
+theorem C18_handshake (cfg : HCfg) (hB : 0 < cfg.bf.BanDuration)
+    (hwf : cfg.rl.Burst * cfg.U ≤ cfg.rl.Rate * cfg.rl.TTL) (es : List (Nat × HEv)) (hs : Sorted 1 es) :
+    holdsHS cfg es (hRun cfg es HState.empty) = true := by
+  simp only [holdsHS, Bool.and_eq_true, beq_iff_eq, List.all_eq_true]
+  refine ⟨hRun_sim cfg hB es 1 _ _ hs ⟨RIpm_empty 1, fun _ => RComp_empty cfg.bf (by omega), rfl⟩, fun ip _ => ?_⟩
+  rw [rlProj_regs]
+  exact stretches cfg.rl cfg.U hwf ip _ 1 _ (rlProj_sorted cfg es 1 _ hs) (fun x hx => by cases hx)
 
-Full statement `holdsHS cfg es (hRun cfg es HState.empty) = true` additionally bounds the admitted
-anonymous registrations inside a handshake time line; that conjunct is proved at the limiter level
-(`C18_rate`) and at handshake level is checked on every harness case, not yet derived here
-(missing: the projection lemma from handshake time lines to limiter time lines). -/
-theorem C18_handshake_partial (cfg : HCfg) (hB : 0 < cfg.bf.BanDuration) (es : List (Nat × HEv)) (hs : Sorted 1 es) :
+/-- The response part alone needs no hypothesis on the limiter configuration. -/
+theorem C18_handshake_responses (cfg : HCfg) (hB : 0 < cfg.bf.BanDuration) (es : List (Nat × HEv)) (hs : Sorted 1 es) :
     hRun cfg es HState.empty = hSpecRun cfg es HLedger.empty :=
   hRun_sim cfg hB es 1 _ _ hs ⟨RIpm_empty 1, fun _ => RComp_empty cfg.bf (by omega), rfl⟩
 
